@@ -14,7 +14,7 @@ from .core import (Arr, Ref, Obj, PyList, PyDict, Unsupported, EngineError, is_s
 HANDLERS = {}
 ARRAY_METHODS = {}
 CONSTS = {'numpy.pi': math.pi, 'math.pi': math.pi, 'numpy.float64': 'dtype:float64', 'numpy.float': 'dtype:float64',
-          'numpy.int64': 'dtype:int64', 'numpy.e': math.e, 'math.e': math.e, 'numpy.newaxis': None}
+          'numpy.int64': 'dtype:int64', 'numpy.nan': None, 'numpy.inf': None, 'numpy.e': math.e, 'math.e': math.e, 'numpy.newaxis': None}
 USED = set()
 
 
@@ -141,6 +141,21 @@ def _linspace(ex, st, args, kwargs, node):
 
 def _minus1(n):
     return n - 1 if not is_sym(n) else to_int(n) - 1
+
+
+@model('numpy.logspace')
+def _logspace(ex, st, args, kwargs, node):
+    """assumed: logspace(a, b, N)[i] = 10**(a + (b-a)*i/(N-1)), N >= 2"""
+    lo, hi = args[0], args[1]
+    n = args[2] if len(args) > 2 else kwargs.get('num', 50)
+    cn = conc_int(n)
+    if cn is not None and cn < 2:
+        raise Unsupported('logspace with < 2 points')
+    if cn is None:
+        ex.oblige('safe.logspace', st, to_int(n) >= 2, node)
+    lo_r, hi_r = to_real(lo), to_real(hi)
+    return st.alloc(ex.c, Arr((n,), lambda ix: ex.c.pow10(lo_r + (hi_r - lo_r) * to_real(ix[0]) / to_real(_minus1(n))),
+                              'real'))
 
 
 @model('numpy.arange')
@@ -508,7 +523,7 @@ def _hasattr(ex, st, args, kwargs, node):
             return isinstance(cell, (PyList, PyDict)) or (isinstance(cell, Arr) and cell.ndim > 0)
         if isinstance(v, (tuple, str)):
             return True
-        if is_sym(v) or isinstance(v, (int, float)) or v is None:
+        if is_sym(v) or isinstance(v, (int, float)) or v is None or type(v).__name__ == 'NanRef':
             return False
     if isinstance(v, Ref) and isinstance(st.get(v), Obj):
         from . import source
@@ -640,3 +655,14 @@ def str_method(ex, st, s, name, args, kwargs, node):
     if name == 'join':
         return '<joined>'
     raise Unsupported('str.%s' % name)
+
+
+def _install_nan():
+    from .engine import NanRef
+    CONSTS['numpy.nan'] = NanRef('singleton')
+    CONSTS['numpy.NaN'] = CONSTS['numpy.nan']
+    CONSTS['math.nan'] = CONSTS['numpy.nan']
+    del CONSTS['numpy.inf']
+
+
+_install_nan()
